@@ -562,3 +562,61 @@ def run_c08(task):
     finally:
         Config.config.clear()
         Config.config.update(defaults)
+
+
+def run_twin(task):
+    """analysis() of one presentation under an alarm; returns outcome, analytic set and a numerical
+    fingerprint of every update map / initial value (propagators substituted; symbols valued through the
+    canonical names supplied by the harness)"""
+    import signal
+    import sympy
+    import odetoolbox
+    from odetoolbox.config import Config
+    from . import impl_worker
+    defaults = dict(Config.config)
+
+    def handler(signum, frame):
+        raise _Alarm()
+    old = signal.signal(signal.SIGALRM, handler)
+    signal.alarm(int(task.get("api_timeout", 30)))
+    try:
+        try:
+            res = odetoolbox.analysis(task["indict"], disable_stiffness_check=True, **task.get("flags", {}))
+            signal.alarm(0)
+        except _Alarm:
+            return {"outcome": "Ok", "api": "Timeout"}
+        except BaseException as e:   # noqa
+            signal.alarm(0)
+            if isinstance(e, KeyboardInterrupt):
+                raise
+            return {"outcome": "Ok", "api": impl_worker.classify_exception(e), "detail": str(e)[:300]}
+        finally:
+            signal.alarm(0)
+            signal.signal(signal.SIGALRM, old)
+        ns = {"Symbol": sympy.Symbol, "Integer": sympy.Integer, "Float": sympy.Float, "Rational": sympy.Rational, "exp": sympy.exp, "log": sympy.log,
+              "sin": sympy.sin, "cos": sympy.cos, "e": sympy.E, "E": sympy.E, "sqrt": sympy.sqrt, "cosh": sympy.cosh, "sinh": sympy.sinh}
+        canon = task["canon"]            # presentation symbol name -> canonical name
+        vals = task["values"]            # canonical name -> float string
+        out = {"outcome": "Ok", "api": "Ok", "analytic": [], "numeric": [], "fingerprint": {}, "ivs": {}}
+        for s in res:
+            (out["analytic"] if s["solver"] == "analytical" else out["numeric"]).extend(canon.get(v, v) for v in s["state_variables"])
+            props = {k: sympy.parsing.sympy_parser.parse_expr(v, global_dict=dict(ns)) for k, v in s.get("propagators", {}).items()}
+            for nm, ex in s["update_expressions"].items():
+                e = sympy.parsing.sympy_parser.parse_expr(ex, global_dict=dict(ns))
+                e = e.subs({sympy.Symbol(k): v for k, v in props.items()})
+                sub = {}
+                for sym in e.free_symbols:
+                    cn = canon.get(str(sym), str(sym))
+                    sub[sym] = sympy.Float(vals.get(cn, "0.777"), 30)
+                v = e.evalf(30, subs=sub)
+                out["fingerprint"][canon.get(nm, nm)] = "%.14g" % float(sympy.re(v))
+            for nm, ex in s["initial_values"].items():
+                e = sympy.parsing.sympy_parser.parse_expr(ex, global_dict=dict(ns))
+                sub = {sym: sympy.Float(vals.get(canon.get(str(sym), str(sym)), "0.777"), 30) for sym in e.free_symbols}
+                out["ivs"][canon.get(nm, nm)] = "%.14g" % float(sympy.re(e.evalf(30, subs=sub)))
+        out["analytic"].sort()
+        out["numeric"].sort()
+        return out
+    finally:
+        Config.config.clear()
+        Config.config.update(defaults)
